@@ -330,16 +330,66 @@ def run_initial_index(chk, G, rule_id):
             chk.run(rule_id, f"{MOD}:{cname}.__post_init__", dict(sizes, field=field), go, construct=f"{cname}.{field} initial value")
 
 
-def run_first_draw(chk, repo, rule_id):
-    """the value actually compared with the epoch length at the FIRST draw of a freshly constructed generator: it must force
-    a reshuffle and stay within int32 (eagerly it is a Python int, under jit an int32: beyond int32 max the two disagree)"""
-    from ..extern import make_world
-    seen = []
+class TrackedInt(int):
+    """concrete value of a DYNAMIC integer field of a generator (an int32 tracer under jit, a Python int eagerly): every integer
+    computed from it is recorded, however the computation is packaged"""
 
-    def stub(bend, n_eff, operands):
-        seen.append((bend, n_eff))
-        return (operands[0], operands[1], 0)
-    w = make_world(repo, overrides={(MOD, '_reset_or_increment'): stub})
+    def __new__(cls, v, log):
+        o = int.__new__(cls, v)
+        o.log = log
+        log.append(int(v))
+        return o
+
+    def _d(self, r):
+        if r is NotImplemented or isinstance(r, bool) or not isinstance(r, int):
+            return r
+        return TrackedInt(r, self.log)
+
+    def __add__(self, o): return self._d(int.__add__(self, o))
+    def __radd__(self, o): return self._d(int.__radd__(self, o))
+    def __sub__(self, o): return self._d(int.__sub__(self, o))
+    def __rsub__(self, o): return self._d(int.__rsub__(self, o))
+    def __mul__(self, o): return self._d(int.__mul__(self, o))
+    def __rmul__(self, o): return self._d(int.__rmul__(self, o))
+    def __floordiv__(self, o): return self._d(int.__floordiv__(self, o))
+    def __mod__(self, o): return self._d(int.__mod__(self, o))
+    def __neg__(self): return self._d(int.__neg__(self))
+    def __pos__(self): return self
+    def __hash__(self): return int.__hash__(self)
+
+
+def _track_dynamic_ints(gen, log):
+    """the generator with every concrete integer held in a non-static field replaced by a TrackedInt"""
+    def rec(v):
+        if isinstance(v, bool):
+            return v
+        if isinstance(v, int):
+            return TrackedInt(v, log)
+        if isinstance(v, dict):
+            return {k: rec(x) for k, x in v.items()}
+        if isinstance(v, (list, tuple)) and not hasattr(v, '_fields'):
+            return type(v)(rec(x) for x in v)
+        return v
+    dyn = set(gen.dynamic_field_names())
+    return gen.replace_fields({k: rec(v) for k, v in gen.fields.items() if k in dyn})
+
+
+def run_first_draw(chk, repo, rule_id):
+    """the FIRST draw of a freshly constructed generator must reshuffle (a row permutation is drawn), and no integer computed from
+    the generator's dynamic integer state may exceed int32 max (eagerly it is a Python int, under jit an int32: beyond int32 max
+    the two disagree).  Both are observed on the execution of the draw itself, whatever helper functions it goes through."""
+    from ..extern import make_world
+    perms = []
+    w = make_world(repo)
+    rnd = w.externals['jax'].random
+
+    def recording(fn):
+        def wrapped(*a, **k):
+            perms.append(fn.__name__)
+            return fn(*a, **k)
+        return wrapped
+    rnd.choice = recording(rnd.choice)
+    rnd.permutation = recording(rnd.permutation)
     G = GenEnv(repo, w)
     for sizes in ({'bt': 7, 'bx': 5, 'bb': 3, 'bo': 8, 'bp': 4}, {'bt': 3, 'bx': 4, 'bb': 11, 'bo': 2, 'bp': 9}):
         key = Sym('key')
@@ -363,22 +413,21 @@ def run_first_draw(chk, repo, rule_id):
             for meth in methods:
                 def go(mk=mk, meth=meth, cname=cname):
                     gen = mk()
-                    del seen[:]
+                    log = []
+                    gen = _track_dynamic_ints(gen, log)
+                    n_state = len(log)
+                    if not n_state:
+                        raise Inconclusive(f"{cname} holds no concrete integer state after construction")
+                    del perms[:]
                     getattr(freeze(gen), meth)()
-                    if not seen:
-                        raise Inconclusive(f"{cname}.{meth} does not go through _reset_or_increment")
-                    out = []
-                    for bend, n_eff in seen:
-                        try:
-                            b, n = int(bend), int(n_eff)
-                        except Exception:
-                            raise Inconclusive(f"first-draw end index is not concrete: {bend!r} / {n_eff!r}")
-                        if b < n:
-                            raise Violation(f"{cname}.{meth}", f"first draw compares {b} with the epoch length {n}: no reshuffle",
-                                            "a reshuffle at the first draw")
-                        if b > INT32_MAX:
-                            raise Violation(f"{cname}.{meth}", f"the end index of the first draw is int32 max + {b - INT32_MAX}: it wraps "
-                                            f"around under jit (int32) but not eagerly (Python int)", "end index <= int32 max")
-                        out.append(f"{n} <= {b} = int32max - {INT32_MAX - b}")
-                    return "; ".join(out)
+                    if len(log) == n_state:
+                        raise Inconclusive(f"{cname}.{meth} computes nothing from the generator's integer state")
+                    if not perms:
+                        raise Violation(f"{cname}.{meth}", f"the first draw draws no permutation of the rows (integers computed from "
+                                        f"the index state: {sorted(set(log[n_state:]))[:6]})", "a reshuffle at the first draw")
+                    top = max(log)
+                    if top > INT32_MAX:
+                        raise Violation(f"{cname}.{meth}", f"an index computed during the first draw is int32 max + {top - INT32_MAX}: it wraps "
+                                        f"around under jit (int32) but not eagerly (Python int)", "every index <= int32 max")
+                    return f"reshuffles ({len(perms)} permutation draw(s)); largest index computed = int32max - {INT32_MAX - top}"
                 chk.run(rule_id, f"{MOD}:{cname}.{meth} (first draw)", dict(sizes), go, construct=f"{cname}.{meth} first draw")
